@@ -6,6 +6,7 @@ CONSTANTS
   MaxCrashes = 0
   MaxRuns = 2
   Tolerated <- NoTol
+  FnOut = FALSE
   Gen = "full"
 INVARIANTS EmitScn
 CHECK_DEADLOCK FALSE
